@@ -610,3 +610,65 @@ fn c17_end1_n4_tl100() {
     kani::cover!(i == 2 && pos[2] == 100);
     core::mem::forget(c);
 }
+
+/// Every 2-lookup history (i1; i2) on a 3-entry end-position table (small enough
+/// for the quick tier; a gap lookup after a cached one is already possible).
+#[kani::proof]
+#[kani::stub(alloc::vec::Vec::push, crate::stubs::push_no_grow)]
+#[kani::unwind(8)]
+#[kani::stub(succinctly::util::broadword::select_in_word, crate::stubs::select_in_word_contract)]
+#[kani::stub(succinctly::yaml::end_positions::CompactEndPositions::ib_select1_with_state, ib_select_model_end)]
+fn c17_end2_n3_tl60() {
+    let pos: [u32; 3] = kani::any();
+    let mut prev = 0u32;
+    let mut j = 0;
+    while j < 3 {
+        kani::assume(pos[j] <= 60);
+        if pos[j] > 0 {
+            kani::assume(pos[j] >= prev);
+            prev = pos[j];
+        }
+        j += 1;
+    }
+    kani::assume(prev > 0);
+    unsafe {
+        IBW = enc_end::<3>(&pos).ib;
+    }
+    let c = succinctly::verif_hooks::CompactEndPositions::verif_try_build(&pos, 60).unwrap();
+    let i1: usize = kani::any();
+    let i2: usize = kani::any();
+    kani::assume(i1 <= 3 && i2 <= 3);
+    macro_rules! g3 {
+        ($i:expr) => {
+            match $i {
+                0 => c.get(0),
+                1 => c.get(1),
+                2 => c.get(2),
+                _ => c.get(3),
+            }
+        };
+    }
+    let (a, b) = match i1 {
+        0 => {
+            let a = c.get(0);
+            (a, g3!(i2))
+        }
+        1 => {
+            let a = c.get(1);
+            (a, g3!(i2))
+        }
+        2 => {
+            let a = c.get(2);
+            (a, g3!(i2))
+        }
+        _ => {
+            let a = c.get(3);
+            (a, g3!(i2))
+        }
+    };
+    assert!(end_ok(&pos, i1, a));
+    assert!(end_ok(&pos, i2, b));
+    kani::cover!(i1 == 0 && i2 == 2 && pos[2] == pos[1] && pos[0] > 0 && pos[0] < pos[1]);
+    kani::cover!(i1 == 2 && i2 == 0);
+    core::mem::forget(c);
+}
